@@ -1,13 +1,16 @@
 """C03 — a response only ever contains bytes sent in reply to its own request.
 
 Sequences of 2-4 requests over one pool; every reply body embeds the id of the request (and of the
-attempt) it answers.  Per response the server picks a behaviour (framing, keep-alive or close, stray
-bytes after the body or after a body-less HEAD / 1xx / 204 / 304 reply, early EOF, silence), the
-caller picks how it leaves the response (read all / read k / read k then release / release unread /
+attempt) it answers.  Per response the server picks a behaviour (Content-Length / chunked / until-close
+framing, keep-alive or close, stray bytes after the body or after a body-less HEAD / 1xx / 204 / 304
+reply, early EOF, silence, a tail of the reply — rest of the body, of the chunk framing, of the trailer
+section, stray bytes — held back and delivered late, when the next request arrives on that connection),
+the caller picks how it leaves the response (read all / read k / read k then release / release unread /
 drain / close / stream / never touch it), over pool sizes and network segmentations.
 
 Correspondence: the same histories run on `U3.Pool.step` (driver `pool`, shared with C01): trace,
-queue, result class and every delivered byte are compared (chunked replies: oracle only).
+queue, result class and every delivered byte are compared — chunked replies (urllib3's `read_chunked`
+and `http.client`'s `_read_chunked`, both modelled) and late delivery included.
 Oracle (implementation only): every delivered body is a prefix of the body sent for that very
 request; a request that reaches the server on a connection that was not clean at that moment
 (unread or unsolicited bytes / EOF pending, previous reply cut short or `Connection: close`) never
@@ -63,12 +66,38 @@ def trailer_len(a):
     return sum(len(t) + 2 for t in c01.trailer_lines(a)) + 2
 
 
+def size_line_spans(a):
+    """[start, end) of every chunk-size line (the last-chunk line included) in the bytes after the head"""
+    if a.get("chunks") is None:
+        return []
+    spans, pos, left = [], 0, a["body"]
+    for n in a["chunks"]:
+        if n <= 0 or left <= 0:
+            continue
+        n = min(n, left)
+        spans.append((pos, pos + len("%x" % n) + 2))
+        pos += len("%x" % n) + 2 + n + 2
+        left -= n
+    if left > 0:
+        spans.append((pos, pos + len("%x" % left) + 2))
+        pos += len("%x" % left) + 2 + left + 2
+    spans.append((pos, pos + 3))
+    return spans
+
+
 def _hold_inside(rng, a, lo=1, hi=None):
     """hold back a tail that starts strictly inside the framed message (so that the part sent at once is an
-    incomplete message) and reaches to the end of everything sent, stray bytes included"""
+    incomplete message) and reaches to the end of everything sent, stray bytes included.  A server that closes
+    the connection does not do so in the middle of a chunk-size line (framing lines are atomic in the model, like
+    heads): the cut then moves to the start of that line"""
     n = wire_len(a)
     hi = n if hi is None else min(hi, n)
-    a["hold"] = a["stray"] + rng.randint(min(lo, hi), hi)
+    k = rng.randint(min(lo, hi), hi)
+    if a["after"] == "fin":
+        for st, en in size_line_spans(a):
+            if st < n - k < en:
+                k = n - st
+    a["hold"] = a["stray"] + k
     return a
 
 
@@ -114,10 +143,20 @@ class C03(Prop):
     rule = ("sequences of 2-4 requests (GET / HEAD / POST, preloaded or streamed, retries=2) on one pool of size 1-2; "
             "per response one server behaviour of {Content-Length keep-alive, Connection: close, read-until-close, "
             "stray bytes after the body, stray bytes after 204 / 304 / 103 / HEAD, early EOF, silence after a short "
-            "body, EOF, reset mid-body} with its own body <r<id>a<attempt>>..., segmentation in {none,1,7,16} bytes "
-            "per recv; per response one caller behaviour of {read all, read k + release, release unread, drain, "
-            "close, stream, partial read, untouched}. non-trivial = some connection is reused or discarded as dirty")
-    assumptions = ["bytes arrive when the server sends them: stray bytes arriving after the checkout probe are outside the check",
+            "body, EOF, reset mid-body, chunked (chunk sizes 1-15, 0-3 trailer fields) keep-alive / close / with stray "
+            "bytes, a tail of the reply held back and delivered when the next request arrives: inside a chunked "
+            "message / inside its trailer section / with EOF / inside a Content-Length or until-close body, trailer "
+            "smuggling (the held tail is a complete HTTP response)} with its own body <r<id>a<attempt>>..., "
+            "segmentation in {none,1,7,16} bytes per recv; per response one caller behaviour of {read all, read k + "
+            "release, release unread, drain, close, stream, partial read, untouched}. non-trivial = some connection is "
+            "reused or discarded as dirty")
+    assumptions = ["bytes arrive when the server sends them, or (held-back tail) when the next request arrives on that "
+                   "connection; a tail is only held back from inside the framed message (bytes arriving late after a "
+                   "complete message are indistinguishable from the next reply: HTTP/1.1, not urllib3)",
+                   "a held-back tail that reads as a complete HTTP response (trailer smuggling) is generated only in "
+                   "histories without early release: with early release the known finding hands it to the next caller",
+                   "framing lines are atomic (as heads are): a server does not close the connection in the middle of a "
+                   "chunk-size line; chunk sizes are below 16 (one hex digit)",
                    "bodies shorter than 8192 bytes (one BufferedReader buffer)",
                    "a caller does not go on reading a response after releasing it"]
     trusted = ["http.client (response framing, __response bookkeeping) and io.BufferedReader read-ahead: modelled, validated "
